@@ -29,6 +29,7 @@ def encOutcome : Outcome → Sexp
   | .ok => sym "ok"
   | .relateError => sym "RelateException"
   | .unknownLink => sym "UnknownLinkException"
+  | .recursionError => sym "RecursionError"
   | .unmodelled => sym "unmodelled"
 
 /-- rows of an API-built metamodel are stored without their referential values already -/
